@@ -216,9 +216,16 @@ def rule_alias(c: Ctx) -> RuleResult:
             ("ParserInline", "ruler2"), ("RendererHTML", "rules"), ("Ruler", "__rules__"), ("OptionsDict", "_options")]
     for (cn, attr) in want:
         srcs = c.tf.attr_sources.get((cn, attr))
+        ci = p.cls(cn)
+        if not srcs:
+            # the attribute became a property: judge the backing attribute(s) its accessor functions store
+            backing = {t.attr for fn in ast.walk(ci.node) if isinstance(fn, ast.FunctionDef) and fn.name == attr
+                       for n in ast.walk(fn) if isinstance(n, (ast.Assign, ast.AnnAssign))
+                       for t in (n.targets if isinstance(n, ast.Assign) else [n.target])
+                       if isinstance(t, ast.Attribute) and isinstance(t.value, ast.Name) and t.value.id == "self"}
+            srcs = [v for b in sorted(backing) for v in c.tf.attr_sources.get((cn, b), [])]
         if not srcs:
             raise AnchorError(f"no assignment to {cn}.{attr} found")
-        ci = p.cls(cn)
         for v in srcs:
             f = p.enclosing_func(ci.module, v)
             fresh = f is not None and c.eff.fresh_expr(f, v)
